@@ -13,19 +13,19 @@ import (
 )
 
 func init() {
-	register(&Rule{ID: "CMD-1", Props: []string{"C04", "C07", "C13", "C19", "C05", "C01"}, Floor: 3,
+	register(&Rule{ID: "CMD-1", Props: []string{"C04", "C07", "C13", "C19", "C05", "C01", "C09", "C10", "C11"}, Floor: 3,
 		Doc: "rejection funnel: every error return of the dispatch function is preceded by the error and the usage on stdErr and then by the policy switch with that error on the rejecting command; no hook ran; callers propagate the result unchanged", Run: cmd1})
 	register(&Rule{ID: "CMD-2", Props: []string{"C05", "C07", "C14"}, Floor: 9,
 		Doc: "policy switch, evaluated for 3 error classes x 3 policies: sentinels exit 0 / return; errors exit 2 / panic(err) / return; exiter and os.Exit appear nowhere else", Run: cmd2})
-	register(&Rule{ID: "CMD-3", Props: []string{"C14"}, Floor: 4,
+	register(&Rule{ID: "CMD-3", Props: []string{"C14", "C17"}, Floor: 4,
 		Doc: "help first: validation and hooks are unreachable once the help scan found a token; the help branch prints the long help, signals the sentinel and returns nil", Run: cmd3})
 	register(&Rule{ID: "CMD-4", Props: []string{"C14", "C09"}, Floor: 3,
 		Doc: "help scan: index of the first -h/--help, -1 at the first `--` (unconditionally, inside the loop) or at the end", Run: cmd4})
 	register(&Rule{ID: "CMD-5", Props: []string{"C14", "C04"}, Floor: 4,
 		Doc: "version: tested before anything else, only on args[0] under a length guard against the declared version option's names; prints, signals the sentinel, returns nil", Run: cmd5})
-	register(&Rule{ID: "CMD-6", Props: []string{"C04", "C14", "C07"}, Floor: 4,
+	register(&Rule{ID: "CMD-6", Props: []string{"C04", "C14", "C07", "C10", "C02", "C15"}, Floor: 4,
 		Doc: "routing: a child is entered only after doInit (error: panic) and isAlias(token) on that child, with exactly the tokens after the alias; the level's own tokens args[:n] are validated first (except on the help descent); fsm is assigned only in doInit", Run: cmd6})
-	register(&Rule{ID: "CMD-7", Props: []string{"C04"}, Floor: 3,
+	register(&Rule{ID: "CMD-7", Props: []string{"C04", "C10"}, Floor: 3,
 		Doc: "level split: number of tokens before the first alias of a direct sub-command; isAlias ranges over all aliases; aliases = strings.Fields(name)", Run: cmd7})
 	register(&Rule{ID: "CMD-8", Props: []string{"C04", "C05", "C07", "C01"}, Floor: 1,
 		Doc: "one start: a single Step.Run call, outside loops, on the entry step with nil, only when no token is left and an Action exists, followed by return nil", Run: cmd8})
@@ -292,6 +292,19 @@ func cmd1(c *Ctx) {
 			} else {
 				c.OK(key, r.Pos(), "stdErr gets the error and the usage, then onError(err) runs on the rejecting command, then the error is returned; no Step.Run precedes")
 			}
+			// whether a level's tokens are acceptable is the automaton's verdict alone: a rejection is either
+			// the automaton's own error or comes after the automaton accepted (no such sub-command)
+			var fsmParse *ssa.Call
+			for _, call := range ir.Calls(fn) {
+				if cv, ok := call.(*ssa.Call); ok {
+					if f := ir.Static(cv); f != nil && f.Name() == "Parse" && f.Pkg != nil && c.P.Rel(f.Pkg.Pkg.Path()) == "internal/fsm" {
+						fsmParse = cv
+					}
+				}
+			}
+			okV := fsmParse != nil && (ir.DependsOn(s.err, fsmParse) || errCmpH(fsmParse, r.Holds, true))
+			c.Check(okV, fmt.Sprintf("%s:verdict[%s]", Q(fn), what), r.Pos(), "the rejection is the automaton's error, or follows its acceptance of the level's tokens",
+				"the level rejects its tokens on a test of its own, not on the automaton's verdict: a command line the spec accepts can be refused")
 		}
 	}
 	if n == 0 {
@@ -842,6 +855,7 @@ func cmd3(c *Ctx) {
 	// help branch
 	help := c.rootGlobal("errHelpRequested")
 	okBranch := false
+	var badSites []string
 	why := "no branch prints the long help, signals the help sentinel and returns nil"
 	for _, call := range ir.Calls(fn) {
 		cv, ok := call.(*ssa.Call)
@@ -851,6 +865,7 @@ func cmd3(c *Ctx) {
 		b := cv.Block()
 		if !foundAt(b, true) {
 			why = "the help sentinel is signalled without a help token having been found"
+			badSites = append(badSites, why)
 			continue
 		}
 		long := false
@@ -864,14 +879,16 @@ func cmd3(c *Ctx) {
 			}
 		}
 		ret, isRet := b.Instrs[len(b.Instrs)-1].(*ssa.Return)
-		if !long {
+		if !long || cv.Call.Args[0] != ssa.Value(recv) {
 			if !strings.HasPrefix(why, "help is printed after") {
-				why = "the help branch does not print the LONG help of this command before signalling"
+				why = "a help branch does not print the LONG help of this command before signalling on it"
 			}
+			badSites = append(badSites, why)
 			continue
 		}
 		if !isRet || !ir.IsNilConst(ret.Results[0]) {
 			why = "the help branch does not return nil"
+			badSites = append(badSites, why)
 			continue
 		}
 		okBranch = true
@@ -923,7 +940,10 @@ func cmd3(c *Ctx) {
 		c.Check(okWho, Q(fn)+":help-addressee", cv.Pos(), "the help is this level's exactly when the help token precedes the first sub-command name (scan result < level split)",
 			"the help request is attributed to this level without comparing the help token's position with the level split: a help token before or after a sub-command name addresses the wrong command")
 	}
-	c.Check(okBranch, Q(fn)+":help-branch", fn.Pos(), "help for this level: PrintLongHelp, onError(errHelpRequested), return nil", why)
+	if len(badSites) > 0 {
+		okBranch, why = false, badSites[0]
+	}
+	c.Check(okBranch, Q(fn)+":help-branch", fn.Pos(), "help for this level: PrintLongHelp, onError(errHelpRequested), return nil; the sentinel is signalled nowhere else", why)
 	// the sentinel is used nowhere else
 	var uses []string
 	for _, f := range c.ClosureFuncsDeep() {
@@ -998,6 +1018,7 @@ func cmd4(c *Ctx) {
 	c.Check(okDD, key+":stops-at-dashdash", tok.Pos(), "each iteration first tests the token against `--` and returns -1", why)
 	// (a) returns the index for -h / --help only
 	okIdx, sawIdx := true, false
+	okFound, whyFound := true, ""
 	why = ""
 	for _, r := range ir.ReturnPoints(fn) {
 		v := r.Results[0]
@@ -1041,6 +1062,17 @@ func cmd4(c *Ctx) {
 			if okSet {
 				for _, e := range ir.EdgesWhere(fn, bo, true) {
 					cut[ir.Edge{From: e.From, To: e.To}] = true
+					// and the converse: once the token was found equal, the only way on is returning its index
+					for b := range ir.Reach(e.To, nil, nil) {
+						if b.Dominates(e.From) {
+							okFound, whyFound = false, "a token equal to -h or --help can be passed over (the scan goes on after the comparison succeeded)"
+						}
+						if ir.IsReturn(b) {
+							if ret := b.Instrs[len(b.Instrs)-1].(*ssa.Return); ret.Results[0] != idx {
+								okFound, whyFound = false, "a token equal to -h or --help does not make the scan return its index"
+							}
+						}
+					}
 				}
 			}
 		})
@@ -1049,6 +1081,7 @@ func cmd4(c *Ctx) {
 		}
 	}
 	c.Check(okIdx && sawIdx, key+":index-of-help", fn.Pos(), "returns the position of the first token equal to -h or --help", why)
+	c.Check(okFound, key+":help-token-found", fn.Pos(), "a token equal to -h or --help always ends the scan with its index", whyFound)
 	// (a') no token is passed over untested: the scan moves on to the next token only after the token was
 	// found different from -h and from --help
 	{
@@ -1343,6 +1376,23 @@ func cmd5(c *Ctx) {
 		}
 		if len(vt.Params) >= 2 && checkFirstCall(vt, callEdge, ssa.Value(vt.Params[1])) {
 			okTest = true
+		}
+		// the only ground for `false` is that no version was declared
+		for _, r := range ir.ReturnWays(vt) {
+			if b, isC := ir.ConstBool(r.Results[0]); !isC || b {
+				continue
+			}
+			notDeclared := false
+			ir.Instrs(vt, func(in ssa.Instruction) {
+				if v, ok := in.(ssa.Value); ok {
+					if d, isV := versionNil(v); isV && r.Holds(v, !d) {
+						notDeclared = true
+					}
+				}
+			})
+			if !notDeclared {
+				okTest, why = false, "the version test answers false although a version was declared (a further condition decides): the declared flag as first argument does not print the version"
+			}
 		}
 	}
 doneTest:
@@ -2518,6 +2568,7 @@ func cmd10(c *Ctx) {
 	}
 	c.Check(okP, Q(fn)+":parser-input", fn.Pos(), "the parser gets the tokens of that Spec and the command's own option/argument lists and indexes", why)
 	okStore := false
+	var theStore *ssa.Store
 	if pcall != nil {
 		st0, err0 := extractOf(pcall, 0), extractOf(pcall, 1)
 		ir.Instrs(fn, func(in ssa.Instruction) {
@@ -2527,6 +2578,7 @@ func cmd10(c *Ctx) {
 					// an earlier failure at a join
 					if vs := ir.PhiValuesAt(st.Val, st.Block()); len(vs) == 1 && vs[0] == st0 {
 						okStore = true
+						theStore = st
 					}
 				}
 			}
@@ -2557,7 +2609,16 @@ func cmd10(c *Ctx) {
 			}
 		}
 	}
-	c.Check(okStore, Q(fn)+":result", fn.Pos(), "a scanner or parser error is returned; otherwise the automaton is stored in the command", "the compile result is not (only) stored on success, or an error is not returned")
+	why = "the compile result is not (only) stored on success, or an error is not returned"
+	if okStore && theStore != nil {
+		// every successful initialisation has compiled: no nil return around the store of the parser's result
+		for _, r := range ir.ReturnPoints(fn) {
+			if ir.IsNilConst(r.Results[0]) && !(theStore.Block() == r.At || theStore.Block().Dominates(r.At)) {
+				okStore, why = false, "the initialiser can report success without having compiled the spec of this call (the declarations may have changed since an earlier call)"
+			}
+		}
+	}
+	c.Check(okStore, Q(fn)+":result", fn.Pos(), "a scanner or parser error is returned; otherwise the automaton is stored in the command", why)
 }
 
 // concatLeaves flattens a string concatenation tree into its operands, left to right.
